@@ -355,6 +355,8 @@ loop:
 	if err != nil {
 		return err, true
 	}
+	// exhausted: do not resume at the last instruction on a later call
+	pc = len(env.codes)
 	return nil, false
 }
 
